@@ -21,6 +21,40 @@ ATOMS = {
     "arch.R": "AR", "arch.Rsize": "ARsize", "arch.O": "AO", "arch.L": "AL",
 }
 
+SHR_KINDS = {"Queue": "SQueue", "Stack": "SStack", "Uart": "SUart", "Kbd": "SKbd", "Barrier": "SBarrier", "Lfsr8": "SLfsr8", "Channel": "SChannel"}
+SHR_NAMES = {"queue": "SQueue", "stack": "SStack", "uart": "SUart", "kbd": "SKbd", "barrier": "SBarrier", "lfsr8": "SLfsr8", "channel": "SChannel"}
+
+
+def shared_tokens(body):
+    """shared-object idioms -> tokens: `x := Queue{}` binds x to a kind; arch.Shared_bits(x.Shr_get_name()) / arch.Shared_bits("queue")
+    become the atom AShr_SQueue, arch.Shared_num(...) the count NShr_SQueue, x.Shortname() the operand prefix SHORT_SQueue"""
+    kinds = {}
+    for m in re.finditer(r"^\s*(\w+) := (%s)\{\}\s*$" % "|".join(SHR_KINDS), body, re.M):
+        kinds[m.group(1)] = SHR_KINDS[m.group(2)]
+    for v, k in kinds.items():
+        body = body.replace("arch.Shared_bits(%s.Shr_get_name())" % v, "AShr_" + k)
+        body = body.replace("arch.Shared_num(%s.Shr_get_name())" % v, "NShr_" + k)
+        body = body.replace("%s.Shortname()" % v, "SHORT_" + k)
+    for n, k in SHR_NAMES.items():
+        body = body.replace('arch.Shared_bits("%s")' % n, "AShr_" + k)
+        body = body.replace('arch.Shared_num("%s")' % n, "NShr_" + k)
+    return body
+
+
+def resolve_token(name, defs, prefix):
+    """the kind behind a local variable defined as <prefix><kind> (or the token itself)"""
+    seen = 0
+    while not name.startswith(prefix) and seen < 4:
+        ds = defs.get(name)
+        if not ds or len(set(ds)) != 1:
+            raise Opaque("identifier %s has no unique local definition" % name)
+        name = ds[0].strip()
+        seen += 1
+    if not name.startswith(prefix):
+        raise Opaque("cannot resolve %s to a shared-object kind" % name)
+    return name[len(prefix):]
+
+
 SWITCH = re.compile(r'switch arch\.Modes\[0\] \{(.*?)\n\t\}', re.S)
 MAXPAT = re.compile(r'^if arch\.O > arch\.L \{\s*(?:locationBits =|return) (?P<a>[^\n]+?)\s*\} else \{\s*(?:locationBits =|return) (?P<b>[^\n]+?)\s*\}$', re.S)
 
@@ -64,6 +98,8 @@ def to_wexpr(expr, body, defs, depth=0):
         if isinstance(n, ast.Name):
             if n.id in ("AOp", "AInb", "AOutb", "AR", "ARsize", "AO", "AL", "AMaxOL"):
                 return ("A", n.id)
+            if n.id.startswith("AShr_"):
+                return ("A", "(AShr %s)" % n.id[5:])
             if n.id == "locationBits":
                 return mode_switch(body, "locationBits", defs)
             ds = defs.get(n.id)
@@ -165,13 +201,14 @@ ASM_EVENT = re.compile(
     r"|Process_number\(words\[(?P<numidx>\d)\]\)"
     r"|Process_input\(words\[(?P<inidx>\d)\], int\(arch\.N\)\)"
     r"|Process_output\(words\[(?P<outidx>\d)\], int\(arch\.M\)\)"
+    r"|Process_shared\((?P<shshort>\w+), words\[(?P<shidx>\d)\], (?P<shnum>\w+)\)"
     r"|zeros_prefix\((?P<width>[^,]+), (?P<src>[^)]*\)?)\)"
     r"|for i := (?P<pad>[^;]+); i < (?:rom_word|romWord); i\+\+ \{\s*result \+= \"0\"\s*\}"
     r"|(?P<bad>Process_shared|Shared_bits|Shared_num|Shr_get_name|Get_channel_name|Process_\w+\()")
 
 
 def parse_assembler(body):
-    body = strip_comments(body)
+    body = shared_tokens(strip_comments(body))
     defs = local_defs(body)
     arity = None
     fields = []
@@ -190,6 +227,11 @@ def parse_assembler(body):
             pending = ("KIn", int(m.group("inidx")))
         elif m.group("outidx"):
             pending = ("KOut", int(m.group("outidx")))
+        elif m.group("shidx"):
+            k1, k2 = resolve_token(m.group("shshort"), defs, "SHORT_"), resolve_token(m.group("shnum"), defs, "NShr_")
+            if k1 != k2:
+                raise Opaque("shared operand prefix of %s checked against the count of %s" % (k1, k2))
+            pending = ("(KShr %s)" % k1, int(m.group("shidx")))
         elif m.group("width"):
             if pending is None:
                 raise Opaque("zeros_prefix without a recognised operand source")
@@ -218,13 +260,14 @@ def parse_assembler(body):
 
 DIS_EVENT = re.compile(
     r"get_id\(instr\[(?P<lo>[^:\]]*):(?P<hi>[^\]]*)\]\)"
+    r"|(?P<shr>\b\w+) \+ strconv\.Itoa\("
     r"|(?P<reg>Get_register_name\()|(?P<num>strconv\.Itoa\()|(?P<numu>strconv\.FormatUint\(uint64\(\w+\), 10\))"
     r"|(?P<inp>Get_input_name\()|(?P<outp>Get_output_name\()"
     r"|(?P<bad>Get_channel_name|Shared_|Shr_get_name|FormatInt|FormatUint|Sprintf)")
 
 
 def parse_disassembler(body):
-    body = strip_comments(body)
+    body = shared_tokens(strip_comments(body))
     defs = local_defs(body)
     out = []
     pending = None
@@ -237,7 +280,8 @@ def parse_disassembler(body):
             lo = m.group("lo").strip() or "0"
             pending = (to_wexpr(lo, body, defs), to_wexpr(m.group("hi"), body, defs))
         else:
-            kind = ("PReg" if m.group("reg") else "PNum" if m.group("num") else "PNumU" if m.group("numu")
+            kind = ("(PShr %s)" % resolve_token(m.group("shr"), defs, "SHORT_") if m.group("shr") else
+                    "PReg" if m.group("reg") else "PNum" if m.group("num") else "PNumU" if m.group("numu")
                     else "PIn" if m.group("inp") else "POut")
             if pending is None:
                 raise Opaque("printer without slice")
@@ -254,7 +298,7 @@ def parse_disassembler(body):
 
 
 def parse_len(body):
-    body = strip_comments(body)
+    body = shared_tokens(strip_comments(body))
     rets = re.findall(r"return ([^\n]+)", body)
     if len(rets) == 1:
         return to_wexpr(rets[0], body, local_defs(body))
